@@ -1,10 +1,11 @@
 From Coq Require Extraction.
 From Coq Require Import ExtrOcamlBasic.
-From NV Require Import Base.Witness Base.Percent Text.TextBase Text.Gff Text.Gtf Text.Bed Text.BedRec Text.BedTyped Text.GffLine Text.GtfLine Text.GffDirValue Text.GffFile Text.GffAttrMap.
+From NV Require Import Base.Witness Base.Percent Text.TextBase Text.Gff Text.Gtf Text.Bed Text.BedRec Text.BedTyped Text.BedRewrite Text.GffLine Text.GtfLine Text.GffDirValue Text.GffFile Text.GffAttrMap.
 Extraction "model.ml" nv_types_witness pct_enc pct_dec gff_write gff_read owned_of_lazy gff_set_sweep
   gtf_write gtf_read gtf_owned bed_write
   bed_default bed_write_file bed_read_file bed_read_raw bed_view_of bed_owned
   gff_file_lines gff_file_line_bufs gff_record_bufs gff_write_directive gff_write_comment bed_write_typed
   gtf_file_lines gtf_file_line_bufs gtf_record_bufs gtf_write_comment
   parse_gff_version parse_sequence_region parse_genome_build directive_typed_readback gff_write_directive_r
-  gff_write_file gtf_write_file gff_attr_views.
+  gff_write_file gtf_write_file gff_attr_views
+  bed_rewrite_view bed_rewrite.
